@@ -12,7 +12,7 @@ From BV Require Import Base.Prelude Model.Block Model.ForkDB Model.Forkable Mode
   Proofs.Fk.MovingLibInv Proofs.Fk.MovingLibFin Proofs.Fk.MovingLibDisc
   Proofs.Hub.StepFields Proofs.Hub.ConsFacts Proofs.Hub.StepStore Proofs.Hub.Retention Proofs.Hub.StepIrr
   Proofs.Hub.HubInv Proofs.Hub.HubRun Proofs.Hub.HubFed Proofs.Hub.LinkedRuns Proofs.Hub.CursorLife
-  Proofs.C09_Store Proofs.C09_Segment Proofs.C09_Proofs
+  Proofs.C09_Store Proofs.C09_Segment Proofs.C09_Proofs Spec.C05_Spec
   Proofs.C07_ComposeStack.
 Local Open Scope N_scope.
 
@@ -191,6 +191,16 @@ Section HubV.
     destruct (S ++ rev A) as [|t V0]; [contradiction|].
     cbn [hd_error]. f_equal. apply U_uniq; [|exact HhU|exact Htop].
     apply HallU. left. reflexivity.
+  Qed.
+
+  (* the head's complete segment: blocks of the universe, parent-linked, ending with the head *)
+  Lemma vstate_segment s V hd sg reach : VState s V -> last_sent s = Some hd ->
+    complete_segment (db s) (bref hd) = Some (sg, reach) ->
+    good_seg sg /\ Forall (fun x => In (seg_blk x) U) sg /\ exists pre z, sg = pre ++ [z] /\ sid z = bid hd.
+  Proof.
+    intros (a & Fin & S & c & A & HP & _ & _) Hls E.
+    destruct (post_segment U cfg U_id U_uniq U_up a s Fin S c HP hd sg reach Hls E) as (H1 & _ & H3 & H4).
+    auto.
   Qed.
 
   (* one ProcessBlock call of a hub past the discovery *)
